@@ -445,6 +445,11 @@ def user_program_cases(ctx):
                 m = build(src, "prog", S, post, rearrange=two_col_zone.rearrange)
                 n += 1
                 judge(ctx, "program/rearrange", lab, S, m, (), True, end, extra_occupied=src_s)
+                if "arch_spec" in dec and post is None:
+                    # the runner builds the layout again: an EQUAL spec that is another object (kernels module and runner each call get_spec)
+                    n += 1
+                    judge(ctx, "program/rearrange", lab + ", executed under an equal spec built again", two_col_zone.get_spec(2, 3, 10.0, 2.0), m, (), True, end,
+                          extra_occupied=src_s, sig_extra={"equal_spec_other_object": True})
             except Exception as e:
                 ctx.evaluations += 1
                 ctx.fail({"move": "program/rearrange", "kind": "valid-input-rejected", "error": type(e).__name__}, {"move": "program/rearrange", "call": lab},
